@@ -232,3 +232,11 @@ package volume
 //@ ensures[C18] emvPrevBoxS(h2, l2, v2)[j] == (1 / mu) * emvPrevBoxS(h, l, v)[j]
 //@ use div_scale(mu, v[j], 100000000)
 //@ use div_div_vscale(mu, (h[j+1] + l[j+1]) / 2 - (h[j] + l[j]) / 2, v[j] / 100000000, h[j] - l[j])
+//@ lemma nviR_scale(c stream, v stream, c2 stream, v2 stream, lam real, mu real, i0 real, k int)
+//@ requires[C18] lam > 0 && mu > 0 && (forall j :: 0 <= j && j <= k + 1 ==> c2[j] == lam * c[j] && v2[j] == mu * v[j] && c[j] != 0)
+//@ ensures[C18] nviR(c2, v2, i0, k) == nviR(c, v, i0, k)
+//@ induction k from 0 - 1
+//@ use mul_lin(lam, c[k+1], c[k])
+//@ use[cond] ratio_scale(lam, c[k+1] - c[k], c[k])
+//@ use mul_lin(mu, v[k+1], v[k])
+//@ use mul_cmp(mu, v[k+1] - v[k], 0)
